@@ -28,11 +28,31 @@ WCap(p) == IF "wcap" \in DOMAIN p THEN p.wcap ELSE 2
 \* explicit witness points (sequence of name -> value functions) or the bounded product space
 SpaceOf(p) == IF "space" \in DOMAIN p THEN p.space ELSE SetToSeq(WitSpace(p.wdecls, WCap(p)))
 
+\* ---- API lifecycle rules (C05, C12) --------------------------------------------------------
+\* A map is a sequence of entries [n |-> name, ty |-> type of the supplied value, v |-> value].
+\* satisfy: error exactly when a supplied name that the program declares has another type
+\* (nominal comparison); undeclared names are ignored; missing names are not an error.
+SatisfyOK(wits, entries) ==
+  \A i \in 1..Len(entries) : entries[i].n \in DOMAIN wits => entries[i].ty = wits[entries[i].n]
+\* instantiate: error exactly when a reported parameter has no argument or one of another type
+InstantiateOK(params, entries) ==
+  \A n \in DOMAIN params : \E i \in 1..Len(entries) : entries[i].n = n /\ entries[i].ty = params[n]
+Complete(wits, entries) == \A n \in DOMAIN wits : \E i \in 1..Len(entries) : entries[i].n = n
+AsFn(entries) == Extend(EmptyFn, [i \in 1..Len(entries) |-> <<entries[i].n, entries[i].v>>])
+\* expectation for one witness map: "err", or "ok" with the verdict when every declared name is supplied
+MapExpect(m, an, av, entries) ==
+  IF ~SatisfyOK(an.wits, entries) THEN [entries |-> entries, expect |-> "err", verdict |-> "none"]
+  ELSE IF Complete(an.wits, entries)
+       THEN [entries |-> entries, expect |-> "ok", verdict |-> IF RunSrcM(m, AsFn(entries), av) THEN "ok" ELSE "fail"]
+       ELSE [entries |-> entries, expect |-> "ok", verdict |-> "none"]
+ArgExpect(an, entries) == [entries |-> entries, expect |-> IF InstantiateOK(an.params, entries) THEN "ok" ELSE "err"]
+
 Check(p) ==
   LET an == Analyze(p.items)
       wf == ~IsErr(an)
   IN IF ~wf THEN [wf |-> FALSE, points |-> <<>>, vsrc |-> <<>>, vsimp |-> <<>>, vdbg |-> <<>>, cannot |-> FALSE,
-                  wtypesOK |-> FALSE, params |-> <<>>]
+                  wtypesOK |-> FALSE, params |-> <<>>, maps |-> <<>>, argmaps |-> <<>>, valt |-> <<>>,
+                  venv |-> <<>>, vsenv |-> <<>>, prune |-> <<>>, sites |-> <<>>]
      ELSE \* quantifier-bound names are evaluated once (a LET would be re-evaluated at every use inside
           \* the function constructors below - measured: 100 x slower)
           CHOOSE r \in {[wf |-> TRUE,
@@ -42,7 +62,28 @@ Check(p) ==
                          vdbg |-> [i \in 1..Len(space) |-> RunSimp(t1, space[i], wtypes)],
                          cannot |-> HasCannot(t0),
                          wtypesOK |-> \A n \in DOMAIN an.wits : n \in DOMAIN wtypes /\ an.wits[n] = wtypes[n],
-                         params |-> [n \in DOMAIN an.params |-> an.params[n]]] :
+                         params |-> [n \in DOMAIN an.params |-> an.params[n]],
+                         valt |-> IF "alt" \in DOMAIN p
+                                  THEN [i \in 1..Len(space) |-> RunSrc(p.alt, space[i], EmptyFn)] ELSE <<>>,
+                         \* tracked call sites that are part of the compiled program (C14), with sample input values
+                         sites |-> LET rs == ReachableSites(m, an) IN
+                                   [i \in 1..Len(rs) |->
+                                      [kind |-> rs[i].kind, text |-> rs[i].text, ty |-> rs[i].ty,
+                                       samples |-> IF rs[i].kind \in {"dbg", "unwrap_left", "unwrap_right"}
+                                                   THEN LET vs == SetToSeq(Vals(rs[i].ty, 2, 4)) IN SubSeq(vs, 1, Min2(3, Len(vs)))
+                                                   ELSE <<>>]],
+                         \* runs under transaction environments (C18): source verdict, Simplicity verdict, pruning
+                         venv |-> IF "envs" \in DOMAIN p
+                                  THEN [e \in 1..Len(p.envs) |-> [i \in 1..Len(space) |-> RunSrcEnv(m, space[i], av, p.envs[e])]] ELSE <<>>,
+                         vsenv |-> IF "envs" \in DOMAIN p
+                                   THEN [e \in 1..Len(p.envs) |-> [i \in 1..Len(space) |-> RunSimpEnv(t0, space[i], wtypes, p.envs[e])]] ELSE <<>>,
+                         prune |-> IF "envs" \in DOMAIN p
+                                   THEN [e \in 1..Len(p.envs) |-> [i \in 1..Len(space) |->
+                                           IF RunSimpEnv(t0, space[i], wtypes, p.envs[e])
+                                           THEN PruneCheck(t0, space[i], wtypes, p.envs[e])
+                                           ELSE [prunedOK |-> TRUE, skelSame |-> TRUE]]] ELSE <<>>,
+                         maps |-> IF "maps" \in DOMAIN p THEN [i \in 1..Len(p.maps) |-> MapExpect(m, an, av, p.maps[i])] ELSE <<>>,
+                         argmaps |-> IF "argmaps" \in DOMAIN p THEN [i \in 1..Len(p.argmaps) |-> ArgExpect(an, p.argmaps[i])] ELSE <<>>] :
                             wtypes \in {Extend(EmptyFn, p.wdecls)},
                             space \in {SpaceOf(p)},
                             av \in {ArgVals(p)},
@@ -67,6 +108,14 @@ CompileCorrect == phase = "prog" => res.vsimp = res.vsrc
 DebugNeutral == phase = "prog" => res.vdbg = res.vsrc
 \* C03 on the model: code generation is total on well-formed programs
 CodegenTotal == phase = "prog" => ~res.cannot
+\* C12 on the model: the program with its arguments behaves like the program with the arguments
+\* written literally in place of param::NAME (p.alt), on every witness assignment
+SubstEquivalent == phase = "prog" => (res.valt = <<>> \/ res.valt = res.vsrc)
+\* C01 under transaction environments; C18 on the model: pruning a successful run keeps the abstract
+\* CMR and the pruned program still succeeds under the same environment
+EnvCompileCorrect == phase = "prog" => res.vsenv = res.venv
+PruneNeutral == phase = "prog" =>
+  \A e \in 1..Len(res.prune) : \A i \in 1..Len(res.prune[e]) : res.prune[e][i].prunedOK /\ res.prune[e][i].skelSame
 
 ArgList(p) == LET ns == SetToSeq(DOMAIN p.args) IN [i \in 1..Len(ns) |-> <<ns[i], p.args[ns[i]]>>]
 ParamList(r) == LET ns == SetToSeq(DOMAIN r.params) IN [i \in 1..Len(ns) |-> <<ns[i], r.params[ns[i]]>>]
@@ -77,5 +126,10 @@ Emit == phase = "prog" =>
                              points |-> res.points, verdicts |-> res.vsrc,
                              params |-> ParamList(res),
                              args |-> ArgList(prog),
+                             maps |-> res.maps, argmaps |-> res.argmaps,
+                             envs |-> IF "envs" \in DOMAIN prog THEN prog.envs ELSE <<>>, verdicts_env |-> res.venv,
+                             prune |-> IF "prune" \in DOMAIN prog THEN prog.prune ELSE FALSE,
+                             sites |-> res.sites,
+                             alt |-> IF "alt" \in DOMAIN prog THEN TokProg(prog.alt) ELSE <<>>,
                              tag |-> IF "tag" \in DOMAIN prog THEN prog.tag ELSE ""])>>)
 =============================================================================
